@@ -62,6 +62,9 @@ func prepSteps(g *gen) []Step {
 		}
 		ops = append(ops, &spb.AFTOperation{Id: g.id(), NetworkInstance: ni, Op: spb.AFTOperation_ADD, Entry: &spb.AFTOperation_NextHopGroup{NextHopGroup: &aftpb.Afts_NextHopGroupKey{Id: 2, NextHopGroup: &aftpb.Afts_NextHopGroup{NextHop: []*aftpb.Afts_NextHopGroup_NextHopKey{{Index: 1, NextHop: &aftpb.Afts_NextHopGroup_NextHop{Weight: u(1)}}}}}}})
 		ops = append(ops, &spb.AFTOperation{Id: g.id(), NetworkInstance: ni, Op: spb.AFTOperation_ADD, Entry: &spb.AFTOperation_Ipv4{Ipv4: &aftpb.Afts_Ipv4EntryKey{Prefix: "192.0.2.0/24", Ipv4Entry: &aftpb.Afts_Ipv4Entry{NextHopGroup: u(2)}}}})
+		// every table is populated, so that an abandoned Get can stop its producer inside each table's walk
+		ops = append(ops, &spb.AFTOperation{Id: g.id(), NetworkInstance: ni, Op: spb.AFTOperation_ADD, Entry: &spb.AFTOperation_Ipv6{Ipv6: &aftpb.Afts_Ipv6EntryKey{Prefix: "2001:db8::/32", Ipv6Entry: &aftpb.Afts_Ipv6Entry{NextHopGroup: u(2)}}}})
+		ops = append(ops, &spb.AFTOperation{Id: g.id(), NetworkInstance: ni, Op: spb.AFTOperation_ADD, Entry: &spb.AFTOperation_Mpls{Mpls: &aftpb.Afts_LabelEntryKey{Label: &aftpb.Afts_LabelEntryKey_LabelUint64{LabelUint64: 100}, LabelEntry: &aftpb.Afts_LabelEntry{NextHopGroup: u(2)}}}})
 	}
 	out = append(out, g.batchStep(0, ops))
 	return out
@@ -70,8 +73,8 @@ func prepSteps(g *gen) []Step {
 // Enumerated cut space (quick tier). Index -> (target, point, mode, window).
 //
 //	Modify: 6 after-send points (0..5 messages sent) + 7 after-recv points (1..7 responses read) = 13, x 4 modes x 2 windows = 104
-//	Get:    9 points (0..8 responses read) x 3 modes x 2 windows = 54
-const cutSpaceModify, cutSpaceGet = 104, 54
+//	Get:    19 points (0..18 responses read: the prepared RIB holds 18 entries, 6 per instance, one table each) x 3 modes x 2 windows = 114
+const cutSpaceModify, cutSpaceGet = 104, 114
 const CutSpace = cutSpaceModify + cutSpaceGet
 
 func genCutEnum(seed uint64, prop string) *Scenario {
